@@ -470,6 +470,21 @@ func (w *StoreWorld) Exec(s Step) {
 		w.Clock.Advance(s.D)
 		w.sum("advance %s -> %s", s.D, w.Clock.Peek().Format("15:04:05.000000000"))
 		return
+	case "clockback":
+		// The wall clock is corrected backwards. C05 speaks of clock advances; what
+		// stays defined for any clock is judged as always (nothing is offered before
+		// its next_run_at or inside a live lease as the clock now reads, delays count
+		// from the clock reading of the call). One bound is suspended: SQLite sweeps
+		// expired leases at most every 10 ms of clock time, measured from the last
+		// sweep, so until the clock has caught up with that sweep an expired lease may
+		// stay leased.
+		if hw := w.Clock.Peek(); hw.After(w.Model.SweepStallUntil) && w.Cfg.Backend != "memory" {
+			w.Model.SweepStallUntil = hw.Add(w.Cfg.SweepGrace())
+		}
+		w.Clock.StepBack(s.D)
+		r.fault("clock.step_back")
+		w.sum("clock steps back %s -> %s", s.D, w.Clock.Peek().Format("15:04:05.000000000"))
+		return
 	case "enqueue":
 		env := w.env(now, *s.Env)
 		w.assume = func(m *Model) { m.Enqueue(now, []queue.Envelope{env}, false, 0, nil) }
